@@ -68,28 +68,28 @@ Section MI.
   Hypothesis HinY : incl Y UY.
 
   (* what the numba code computes, expressed on the counts it feeds to log *)
-  Definition Hfull : R := rsum (fun c => - (cY c / n) * ln (cY c / n)) UY.
-  Definition stratum (v : Z) : R :=
+  Definition Hfull_c : R := rsum (fun c => - (cY c / n) * ln (cY c / n)) UY.
+  Definition stratum_c (v : Z) : R :=
     if Nat.eqb (count_occ Z.eq_dec X v) 1 then 0 else
     rsum (fun c => if Nat.eqb (count_occ pair_dec P (v, c)) 0 then 0
                    else (cX v / n) * (cXY v c / cX v) * (- ln (cXY v c / cX v))) UY.
-  Definition Hcond : R := rsum stratum UX.
+  Definition Hcond_c : R := rsum stratum_c UX.
 
   Hypothesis Hn : (0 < length P)%nat.
   Lemma n_pos : 0 < n. Proof. unfold n. apply lt_0_INR. exact Hn. Qed.
 
-  Lemma Hfull_pointwise : Hfull = rsum (fun xy => - / n * ln (cY (snd xy) / n)) P.
+  Lemma Hfull_pointwise : Hfull_c = rsum (fun xy => - / n * ln (cY (snd xy) / n)) P.
   Proof.
-    unfold Hfull. pose proof n_pos as Hp.
+    unfold Hfull_c. pose proof n_pos as Hp.
     rewrite <- (rsum_map snd (fun y => - / n * ln (cY y / n)) P). fold Y.
     rewrite <- (sum_by_value Z.eq_dec _ Y UY HndY HinY).
     apply rsum_ext_in. intros c _. unfold cY. field. lra.
   Qed.
 
   Lemma stratum_inner v :
-    stratum v = rsum (fun c => cXY v c * (- / n * ln (cXY v c / cX v))) UY.
+    stratum_c v = rsum (fun c => cXY v c * (- / n * ln (cXY v c / cX v))) UY.
   Proof.
-    pose proof n_pos as Hp. unfold stratum.
+    pose proof n_pos as Hp. unfold stratum_c.
     destruct (Nat.eqb (count_occ Z.eq_dec X v) 1) eqn:E1.
     - apply Nat.eqb_eq in E1. symmetry. apply rsum_zero. intros c _.
       pose proof (count_pair_le_fst P v c) as Hle. fold X in Hle. unfold cXY, cX. rewrite E1 in *.
@@ -104,9 +104,9 @@ Section MI.
         field. split; lra.
   Qed.
 
-  Lemma Hcond_pointwise : Hcond = rsum (fun xy => - / n * ln (cXY (fst xy) (snd xy) / cX (fst xy))) P.
+  Lemma Hcond_pointwise : Hcond_c = rsum (fun xy => - / n * ln (cXY (fst xy) (snd xy) / cX (fst xy))) P.
   Proof.
-    unfold Hcond. erewrite rsum_ext_in by (intros v _; apply stratum_inner).
+    unfold Hcond_c. erewrite rsum_ext_in by (intros v _; apply stratum_inner).
     rewrite (rsum_list_prod (fun v c => cXY v c * (- / n * ln (cXY v c / cX v))) UX UY).
     rewrite <- (sum_by_value pair_dec (fun xy => - / n * ln (cXY (fst xy) (snd xy) / cX (fst xy))) P (list_prod UX UY)).
     - apply rsum_ext_in. intros [x y] _. reflexivity.
@@ -116,7 +116,7 @@ Section MI.
       + apply HinY. unfold Y. apply (in_map snd) in Hin. exact Hin.
   Qed.
 
-  Theorem model_is_plugin : Hfull - Hcond = MIp.
+  Theorem model_is_plugin : Hfull_c - Hcond_c = MIp.
   Proof.
     pose proof n_pos as Hp.
     rewrite Hfull_pointwise, Hcond_pointwise, <- rsum_minus. unfold MIp. rewrite <- rsum_scal.
